@@ -213,3 +213,79 @@ def run(run, P, funcs=None):
         ctx = solve(f, Env(), on_event, None, keys, R)
         run.stats['solver_steps'] += ctx.steps
         run.stats['solver_states'] += ctx.nstates
+
+
+# ---------------------------------------------------------------------------------------------------------------
+RESTORE_ADD = 'coap_persist_observe_add_lkd'
+REC_READ = 'coap_op_observe_read'
+REC_WRITE = 'coap_op_observe_write'
+
+
+def run_restore_key(run, P):
+    """R-PERSIST (restored key): an observe record is identified on disk by the address of its live subscription.  After a
+    restart those addresses are meaningless; the start-up loader re-creates each subscription (coap_persist_observe_add_lkd)
+    and rewrites the record under the NEW address.  In every function that re-creates subscriptions from records it reads:
+    the key handed to coap_op_observe_write() is, on every path, the value coap_persist_observe_add_lkd() returned since the
+    record was read -- never the value coap_op_observe_read() filled in from the file.  A record rewritten under the old
+    process's address is never found again by coap_op_observe_deleted(): a cancelled observation stays in the file and is
+    re-established by the next restart (or, when the address is re-used, someone else's observation is dropped)."""
+    from core.prog import strip, ap, short
+    from core.psts import Env, solve, relevance, apply_generic
+    run.rule('R-PERSIST')
+    n = 0
+    for f in sorted(P.lib_funcs(), key=lambda f: f['name']):
+        evs = [ev for b, ev in P.events(f)]
+        if not any(e['e'].get('k') == 'call' and e['e'].get('fn') == RESTORE_ADD for e in evs):
+            continue
+        if not any(e['e'].get('k') == 'call' and e['e'].get('fn') == REC_WRITE for e in evs):
+            continue
+        name = f['name']
+        n += 1
+        run.instance('R-PERSIST', '%s: restores subscriptions and rewrites their records' % name)
+
+        def is_rule_event(ev):
+            t = ev['e']
+            if t.get('k') == 'call' and t.get('fn') in (RESTORE_ADD, REC_READ, REC_WRITE):
+                return True
+            if t.get('k') == 'asg':
+                r = strip(t['r'])
+                return isinstance(r, dict) and r.get('k') == 'call' and r.get('fn') == RESTORE_ADD
+            return False
+        keys, R = relevance(f, is_rule_event)
+
+        def on_event(ev, env, ctx):
+            t = ev['e']
+            st = dict(env.ts.get('k', ()))
+            if t.get('k') == 'call' and t.get('fn') == REC_READ:
+                e = apply_generic(ev, env, R).copy()
+                for a in t.get('a', []):
+                    a0 = strip(a)
+                    if isinstance(a0, dict) and a0.get('k') == 'un' and a0.get('op') == '&' and ap(a0.get('e')):
+                        st[ap(a0['e'])] = 'disk'
+                e.ts['k'] = tuple(sorted(st.items()))
+                return [e]
+            if t.get('k') == 'asg' and t.get('op') == '=':
+                r = strip(t['r'])
+                if isinstance(r, dict) and r.get('k') == 'call' and r.get('fn') == RESTORE_ADD and ap(t['l']):
+                    e = apply_generic(ev, env, R).copy()
+                    st[ap(t['l'])] = 'live'
+                    e.ts['k'] = tuple(sorted(st.items()))
+                    return [e]
+                if ap(t['l']) in st:
+                    e = apply_generic(ev, env, R).copy()
+                    st[ap(t['l'])] = st.get(ap(t['r']), None) if ap(t['r']) else None
+                    e.ts['k'] = tuple(sorted((k, v) for k, v in st.items() if v))
+                    return [e]
+                return None
+            if t.get('k') == 'call' and t.get('fn') == REC_WRITE and len(t.get('a', [])) >= 2:
+                kv = ap(t['a'][1])
+                ok = st.get(kv) == 'live'
+                run.oblige('R-PERSIST', ok, '%s:restored-key' % name)
+                if not ok:
+                    run.violation('R-PERSIST', name, ev['loc'], 'record-rewritten-under-%s-key' % (st.get(kv) or 'unknown'),
+                                  'coap_op_observe_write() is given `%s`, which on this path is %s and not the subscription coap_persist_observe_add_lkd() just created: the restored '
+                                  'observation is filed under an address of the previous process and can never be matched (cancelled) again' %
+                                  (short(t['a'][1]), 'the value read from the file' if st.get(kv) == 'disk' else 'of unknown origin'), ctx.path())
+            return None
+        solve(f, Env({'k': ()}), on_event, None, keys, R, key_fn=lambda e: e.ts.get('k'))
+    run.require(n >= 1 or run.fixture_mode, 'R-PERSIST(restored key): no function both re-creates subscriptions and rewrites their records')
